@@ -159,6 +159,7 @@ func init() {
 			{Name: "large", N: c02LargeN, Run: c02Large, Exhaustive: true},
 			{Name: "offender-position", N: c02OffN, Run: c02Offender, Exhaustive: true},
 			{Name: "numeric-boundaries", N: c02NumBoundN, Run: c02NumBound, Exhaustive: true},
+			{Name: "case-mapping", N: casedN, Run: c02CaseMap, Exhaustive: true},
 		},
 	})
 }
